@@ -97,6 +97,49 @@ def _chain_unit(unit):
     return acc
 
 
+def _long_chain_unit(unit):
+    """runs of n operands joined by ONE operator, at the root / under not / as one side of the other connective / as arithmetic:
+    the tree is the left-deep one of the independent parser however long the run is"""
+    n, op = unit
+    acc = Acc()
+    lx = ODataLexer()
+    if op in ("and", "or"):
+        parts = ["f%d eq %d" % (i % 7, i) for i in range(n)]
+        run = (" %s " % op).join(parts)
+        other = "or" if op == "and" else "and"
+        texts = [run, "not (%s)" % run, "(%s) %s g eq 1" % (run, other), "g eq 1 %s (%s)" % (other, run), "(%s)" % run]
+    else:
+        run = (" %s " % op).join("f%d" % (i % 7) for i in range(n))
+        texts = [run + " eq 1", "1 eq " + run, "(%s) %s 2 gt 0" % (run, "mul" if op in ("add", "sub") else "add")]
+    for text in texts:
+        toks = [(k.type, decode(k.value) if not isinstance(k.value, str) else None) for k in lx.tokenize(text)]
+        ref = refparse.ref_parse(toks)
+        got = parse_text(text)
+        acc.count("executions")
+        acc.count("transitions")
+        acc.count("states")
+        acc.count("nontrivial")
+        if got != ref:
+            acc.violation("long-run:%s" % op, {"layer": "long-runs", "text": text, "n": n, "op": op})
+        else:
+            acc.outcome(("long-run-ok", op))
+    return acc
+
+
+SIGNED = [T.Int("-5"), T.Flt("-1.5"), T.Int("-0"), T.Flt("-2e3"), T.Int("+5")]
+
+
+def signed_operand_trees():
+    """a unary minus / not / binary operator directly over a literal that carries its own sign"""
+    a = T.I("a")
+    out = []
+    for L in SIGNED:
+        out += [T.unop("USub", L), T.unop("USub", T.unop("USub", L)), T.binop("Mult", T.unop("USub", L), a), T.binop("Eq", a, T.unop("USub", L)),
+                T.binop("Sub", a, L), T.binop("Sub", T.unop("USub", L), L), T.binop("Eq", T.unop("USub", T.binop("Add", L, a)), L),
+                T.binop("In", a, T.lst(T.unop("USub", L), L))]
+    return out
+
+
 def _opsig(t):
     """operator skeleton of a tree (dedup class for violations)"""
     ops = [s[1][0] for s in T.subterms(t) if s[0] in ("BinOp", "Compare", "BoolOp", "UnaryOp")]
@@ -174,6 +217,14 @@ def run(ctx):
     ctx.pmap(_chain_unit, units)
     ctx.layer("connective-chains", max_comparisons=nmax, patterns="all and/or patterns x not on every second term", exhaustive=True)
 
+    # ---- long runs of one operator (a rebalancing / chunking threshold) and signs stacked on signed literals ------------------
+    sizes = (63, 64, 65, 66, 100, 128, 129, 200) if ctx.quick else (31, 32, 33, 63, 64, 65, 66, 100, 127, 128, 129, 200, 255, 256, 257, 400)
+    ctx.pmap(_long_chain_unit, [(n, op) for n in sizes for op in ("and", "or", "add", "sub", "mul", "div", "mod")])
+    ctx.layer("long-runs", sizes=list(sizes), operators=7, exhaustive=True, note="left-deep whatever the length; root, negated, parenthesised, beside the other connective")
+    st_trees = signed_operand_trees()
+    ctx.merge(_tower_unit(st_trees)) if hasattr(ctx, "merge") else ctx.pmap(_tower_unit, [st_trees])
+    ctx.layer("signed-literal-operands", trees=len(st_trees), exhaustive=True, note="a minus over a literal with its own sign stays a unary node")
+
     # ---- layer 3: negative --------------------------------------------
     kneg = 3 if ctx.quick else 4
     units = [(n, si) for n in range(2, kneg + 1) for si in range(len(T.shapes(n)))]
@@ -207,6 +258,10 @@ def run(ctx):
 
 
 def replay(ctx, case):
+    if case["layer"] == "long-runs":
+        lx = ODataLexer()
+        toks = [(k.type, decode(k.value) if not isinstance(k.value, str) else None) for k in lx.tokenize(case["text"])]
+        return {"text": case["text"][:200], "ok": parse_text(case["text"]) == refparse.ref_parse(toks)}
     if case["layer"] == "table":
         entries = []
         for txt in case["tokens"]:
